@@ -113,7 +113,11 @@ def rule_accept(ctx, py):
             valvars = _loopvars([lp for lp in loops if isinstance(lp, ast.For) and
                                  any(pya.mentions(pyfe.src(lp.iter), k) for k in mapn) and
                                  not (isinstance(lp.iter, ast.Call) and pyfe.call_name(lp.iter) == "range")])
-            return t in valvars or any(re.match(r"^%s\[.+\]$" % re.escape(k), t) for k in mapn)
+            # ... or a local that holds one (node = im[i])
+            elem = {st_.targets[0].id for st_ in ast.walk(f) if isinstance(st_, ast.Assign) and len(st_.targets) == 1 and
+                    isinstance(st_.targets[0], ast.Name) and isinstance(st_.value, ast.Subscript) and
+                    pyfe.src(st_.value.value) in mapn}
+            return t in valvars or t in elem or any(re.match(r"^%s\[.+\]$" % re.escape(k), t) for k in mapn)
         for a, pol in allf:
             if not isinstance(a, str):
                 continue
